@@ -313,8 +313,15 @@ def build_schedules(ctx, quick):
     lib = os.path.join(ctx.verif, "spec", "attacks", "ABCI", "library.json")
     use_lib = quick and os.path.exists(lib)
     alljobs = jobs + weak + ([] if use_lib else att)
-    # quick: many small jobs (JVM start dominates) - one per core; thorough: the big ones first, W workers each
-    res = tlc_jobs(ctx, alljobs, par=max(2, min(ctx.cores, 6)) if quick else max(1, ctx.cores // W))
+    # quick: many small jobs (JVM start dominates) - one per core; thorough: the big exhaustive ones with W
+    # workers each, then the small single-worker ones one per core
+    if quick:
+        res = tlc_jobs(ctx, alljobs, par=max(2, min(ctx.cores, 6)))
+    else:
+        big = [j for j in alljobs if j[1].get("workers", 1) > 1]
+        small = [j for j in alljobs if j[1].get("workers", 1) <= 1]
+        res = tlc_jobs(ctx, big, par=max(1, ctx.cores // W))
+        res.update(tlc_jobs(ctx, small, par=max(2, min(ctx.cores, 6))))
     # non-vacuity
     nonvac = {}
     for w in SOCK_WEAK:
@@ -590,9 +597,11 @@ def replay(ctx, path):
             if not rd:
                 raise Undecided("replay file has no run definition")
             rows = []
-            for _ in range(5):       # interleaving-dependent: a few attempts
-                r, _c = run_sock_harness(ctx, binp, [rd], out)
+            for k in range(30):      # interleaving-dependent on real code: several attempts
+                r, c = run_sock_harness(ctx, binp, [dict(rd, id="%s@%d" % (rd["id"], k))], out)
                 rows += r
+                if c or any(x["ev"] == "Obs" and x.get("inflight") and x.get("quit") for x in r):
+                    break
         elif fam == "local":
             if not rd:
                 raise Undecided("replay file has no run definition")
